@@ -100,29 +100,28 @@ class WrappedField:
             result = get_type_hints(self.clazz.clazz)[self.field.name]
             return result
         except NameError as e:
-            # First try to find the class in the class diagram
-            potential_matching_classes = [
-                cls.clazz
-                for cls in self.clazz._class_diagram.wrapped_classes
-                if cls.clazz.__name__ == e.name
-            ]
-            if len(potential_matching_classes) > 0:
-                found_clazz = potential_matching_classes[0]
-            else:
-                # second try to find it in the modules
-                found_clazz = manually_search_for_class_name(e.name)
-
             # Build a complete namespace with ALL classes from the class diagram
             local_namespace = {
                 cls.clazz.__name__: cls.clazz
                 for cls in self.clazz._class_diagram.wrapped_classes
             }
-            # Also add the manually found class (in case it's not in the diagram)
-            local_namespace[e.name] = found_clazz
-            result = get_type_hints(self.clazz.clazz, localns=local_namespace)[
-                self.field.name
-            ]
-            return result
+            # A class may refer to several classes that its module only imports under TYPE_CHECKING:
+            # add the missing names one after the other until all hints can be evaluated
+            missing_name = e.name
+            while True:
+                if missing_name not in local_namespace:
+                    # not in the class diagram, try to find it in the modules
+                    local_namespace[missing_name] = manually_search_for_class_name(
+                        missing_name
+                    )
+                try:
+                    return get_type_hints(self.clazz.clazz, localns=local_namespace)[
+                        self.field.name
+                    ]
+                except NameError as next_error:
+                    if next_error.name in local_namespace:
+                        raise
+                    missing_name = next_error.name
 
     @cached_property
     def is_builtin_type(self) -> bool:
